@@ -401,7 +401,12 @@ func (c *SpecCtx) index(v, i Val) Val {
 	s := c.s
 	switch u := v.Ty.Underlying().(type) {
 	case *types.Slice:
-		return Val{T: s.readElem(u.Elem(), "(s_base "+v.T+")", "(+ (s_off "+v.T+") "+i.T+")"), Ty: u.Elem()}
+		ev := Val{T: s.readElem(u.Elem(), "(s_base "+v.T+")", "(+ (s_off "+v.T+") "+i.T+")"), Ty: u.Elem()}
+		if !strings.Contains(ev.T, "q_") && !strings.Contains(ev.T, "hb_") && !s.noNames {
+			// like a load in the program: memory is well typed (ground terms only; bound variables cannot be constrained)
+			s.assume(s.e.typeInv(u.Elem(), ev.T))
+		}
+		return ev
 	case *types.Map:
 		return Val{T: s.mapVal(v.Ty, v.T, i.T), Ty: u.Elem()}
 	case *types.Array:
@@ -741,6 +746,27 @@ func (c *SpecCtx) call(x *SCall) Val {
 		qb, qi := e.freshName("q_b"), e.freshName("q_i")
 		in := "(and (= " + qb + " (s_base " + p.T + ")) (<= (s_off " + p.T + ") " + qi + ") (< " + qi + " (+ (s_off " + p.T + ") (s_len " + p.T + "))))"
 		return bval("(forall ((" + qb + " Int) (" + qi + " Int)) (! (=> (not " + in + ") (= (select (select " + cur + " " + qb + ") " + qi + ") (select (select " + old + " " + qb + ") " + qi + "))) :pattern ((select (select " + cur + " " + qb + ") " + qi + "))))")
+	case "iscase":
+		// iscase("K"): this verification is the foreach case K (folds to a literal)
+		return bval(fmt.Sprint(e.curCase == x.Args[0].(*SLit).Val))
+	case "dynknown":
+		// dynknown(v): the dynamic type of the interface value is known structurally on this path
+		return bval(fmt.Sprint(arg(0).Dyn != nil))
+	case "entrysame":
+		// entrysame("F:T.f"): the whole heap is what it was when the loop was first reached (loop invariants)
+		l := x.Args[0].(*SLit)
+		id := e.modName(l.Val)
+		so := e.heapSortFromID(id)
+		if so == "" {
+			c.fail("entrysame: unknown heap %s", id)
+		}
+		if c.entry == nil {
+			c.fail("entrysame() outside a loop invariant")
+		}
+		cur := s.heapTerm(id, so)
+		var was string
+		c.withHeap(c.entry, func() Val { was = s.heapTerm(id, so); return Val{} })
+		return bval(eq(cur, was))
 	case "allocated":
 		return bval("(select " + s.allocTerm() + " " + s.term(arg(0)) + ")")
 	case "fresh":
